@@ -248,7 +248,13 @@ class StmtMixin:
                 out.append((s, ("raise", vals)))
                 continue
             cur, rhs = vals
-            lc = cur if isinstance(cur, PyList) else None
+            lcur0 = self._try_lift(cur)
+            if isinstance(n.op, ast.Add) and lcur0 is not None and lcur0.kind is None and lcur0.sort == "V":
+                # `x += y` on a value of statically unknown kind: must be a list here (obligation), then in-place extend
+                self.obl("kind", n, s, f"(k_list {lcur0.t})", detail=f"{ast.unparse(n.target)} is a list at +=")
+                s.assume(f"(k_list {lcur0.t})")
+                lcur0.kind = "list"
+                cur = lcur0
             if isinstance(n.op, ast.Add) and (isinstance(cur, PyList) or getattr(self._try_lift(cur), "kind", None) == "list"):
                 # list += iterable : in-place extend
                 if isinstance(cur, PyList):
